@@ -148,7 +148,8 @@ class Arg:
 
 
 class Reply:
-    def __init__(self, names, on, data="Unmarked", data_ty="", payload_raw=False, payload=None):
+    def __init__(self, names, on, data="Unmarked", data_ty="", payload_raw=False, payload=None, legacy=False):
+        self.legacy = legacy  # pre-`replies` style: fn reply(&self, ctx, msg: Reply)
         self.names = names  # [] => the method's own name
         self.on = on  # success | error | always
         self.data = data
@@ -411,6 +412,18 @@ def reply_params(h):
     return params, "json!({%s})" % ", ".join(echo), script
 
 
+def body_reply_legacy(h, glue, hid):
+    return """{
+        let __c = ctx_echo(ctx.deps.as_ref(), &ctx.env, None);
+        bb::enter(<%s as Glue>::CID, "%s", json!({"msg": j(&msg)}), __c);
+        bb::touch(ctx.deps.storage);
+        let __s = script::script_from_raw_payload(msg.payload.as_slice());
+        let __r = script::run::<%s>(ctx.deps, &ctx.env, &__s);
+        bb::exit(<%s as Glue>::CID, "%s", script::exit_value(&__r, <%s as Glue>::describe));
+        __r
+    }""" % (glue, hid, glue, glue, hid, glue)
+
+
 def body_reply(h, glue, hid):
     _, echo, script = reply_params(h)
     return """{
@@ -427,6 +440,8 @@ def msg_attr(h):
     if h.kind != "reply":
         return "#[sv::msg(%s)]" % h.kind
     r = h.reply
+    if r.legacy:
+        return "#[sv::msg(reply)]"
     parts = ["reply"]
     if r.names:
         parts.append("handlers=[%s]" % ", ".join(r.names))
@@ -611,12 +626,12 @@ def emit_contract(c, iface_path):
         for k in c.overrides:
             ent = ENTRY[k]
             if k in ("instantiate", "migrate"):
-                w("        #[derive(serde::Serialize, serde::Deserialize, Clone, Debug, PartialEq, sylvia::schemars::JsonSchema)]")
+                w("        #[derive(serde::Serialize, serde::Deserialize, Clone, Debug, PartialEq)]")
                 w("        pub struct Ov%sMsg { pub tag: String }" % KIND_ENUM[k])
             elif k == "reply":
                 pass
             else:
-                w("        #[derive(serde::Serialize, serde::Deserialize, Clone, Debug, PartialEq, sylvia::schemars::JsonSchema)]")
+                w("        #[derive(serde::Serialize, serde::Deserialize, Clone, Debug, PartialEq)]")
                 w('        #[serde(rename_all = "snake_case")]')
                 w("        pub enum Ov%sMsg { Poke { tag: String } }" % KIND_ENUM[k])
             mt = "Reply" if k == "reply" else "Ov%sMsg" % KIND_ENUM[k]
@@ -698,7 +713,12 @@ def emit_contract(c, iface_path):
     for h in c.handlers:
         hid = h.hid()
         w("        %s" % msg_attr(h))
-        if h.kind == "reply":
+        if h.kind == "reply" and h.reply.legacy:
+            w(
+                "        #[allow(deprecated)]\n        fn %s(&self, ctx: sylvia::types::ReplyCtx%s, msg: Reply) -> Result<Response%s, %s> %s"
+                % (h.fn, q, m, c.err_ty(), body_reply_legacy(h, "G", hid))
+            )
+        elif h.kind == "reply":
             params, _, _ = reply_params(h)
             w(
                 "        fn %s(&self, ctx: ReplyCtx%s, %s) -> Result<Response%s, %s> %s"
@@ -762,6 +782,8 @@ def emit_contract(c, iface_path):
         w("    }")
 
     w(emit_spec(c))
+    if c.family == "f2":
+        w(emit_absence_probe(c))
     w(emit_entry_glue(c, iface_path))
     w("}")
     return "\n".join(L)
@@ -1445,7 +1467,84 @@ def family_f1(rng):
     return list(lib.values()), cs
 
 
-FAMILIES = {"f1": family_f1, "f3": family_f3}
+def emit_absence_probe(c):
+    """entry points that must NOT exist: a glob import of a same-named probe next to
+    `entry_points::*` is ambiguous (E0659) exactly when sylvia emitted that entry point too"""
+    must_not = [k for k in KINDS if k in c.overrides]
+    if not c.has("migrate") and "migrate" not in must_not:
+        must_not.append("migrate")
+    if not c.has("reply") and "reply" not in must_not:
+        must_not.append("reply")
+    if not must_not or not c.entry_points:
+        return ""
+    fns = "\n".join("            pub fn %s() {}" % ENTRY[k] for k in must_not)
+    uses = "\n".join("                let _ = %s;" % ENTRY[k] for k in must_not)
+    return """
+    pub mod absent_probe {
+        pub mod probe {
+%s
+        }
+        pub mod t {
+            #[allow(unused_imports)]
+            use super::probe::*;
+            #[allow(unused_imports)]
+            use super::super::entry_points::*;
+            pub fn t() {
+%s
+            }
+        }
+    }
+""" % (fns, uses)
+
+
+def family_f2(rng):
+    """entry point overrides: subsets of overridden kinds x migrate / reply presence x replies feature"""
+    cs = []
+    subsets = [[]]
+    for k in KINDS:
+        subsets.append([k])
+    subsets.append(list(KINDS))
+    subsets.append(["exec", "sudo", "migrate"])
+    subsets.append(["instantiate", "query"])
+    subsets.append(["query", "reply"])
+    while len(subsets) < 30:
+        sub = [k for k in KINDS if rng.random() < 0.4]
+        if sub not in subsets:
+            subsets.append(sub)
+    for n, sub in enumerate(subsets):
+        has_migrate = (n % 3 != 1) or ("migrate" in sub and n % 2 == 0)
+        reply_mode = ["none", "feature", "legacy"][n % 3]
+        if "reply" in sub and n % 2 == 0:
+            reply_mode = ["feature", "legacy", "none"][(n // 2) % 3]
+        hs = [
+            Handler("instantiate", "instantiate", [Arg("a", "u32")]),
+            Handler("exec", "go"),
+            Handler("exec", "poke", [Arg("tag", "String")]),
+            Handler("query", "probe", [Arg("x", "u32")], ret="u64", failarg=True),
+            Handler("sudo", "nudge", [Arg("n", "u32")]),
+        ]
+        if has_migrate:
+            hs.append(Handler("migrate", "migrate", [Arg("a", "u32")]))
+        if reply_mode == "feature":
+            hs.append(Handler("reply", "on_done", reply=Reply([], "always", payload_raw=True, payload=[Arg("payload", "Binary")])))
+        elif reply_mode == "legacy":
+            hs.append(Handler("reply", "reply", reply=Reply([], "always", payload_raw=True, payload=[Arg("payload", "Binary")], legacy=True)))
+        name = "o" + "".join(chr(ord("a") + int(d)) for d in "%02d" % n)
+        cs.append(
+            Contract(
+                name,
+                "f2",
+                hs,
+                err=["own", "std"][n % 2],
+                overrides=sub,
+                replies=(reply_mode == "feature"),
+                tags=("override", "regular"),
+            )
+        )
+    return [], cs
+
+
+FAMILIES = {"f1": family_f1, "f2": family_f2, "f3": family_f3}
 
 
 def emit_family(name, rng):
